@@ -4,6 +4,7 @@ import PhreeqcVerif.Gen.RKTableau
 import PhreeqcVerif.Lemmas.RK
 import Mathlib.Tactic.Ring
 import Mathlib.Tactic.Linarith
+import Mathlib.Algebra.Order.AbsoluteValue.Basic
 import Mathlib.Tactic.FieldSimp
 import Mathlib.Tactic.NormNum
 import Mathlib.Tactic.Push
@@ -42,6 +43,15 @@ exits (they are only taken when the stage rates agree within the tolerance, see 
 theorem early_exit_order_one :
     (dotL e2 (c.take 2) == 1/2) = false ∧ (dotL e3 (c.take 3) == 1/2) = false ∧ (dotL e1 (c.take 1) == 1/2) = false := by
   decide +kernel
+
+/-- the early exits are only taken when the stage values agree with k1 within the tolerance (`equal_rate`): the amount
+they transfer then differs from the Euler amount `k1` by at most 0.7 tol (two stages) resp. 3.5 tol (three stages) -/
+theorem early_exit_close_to_euler (k1 k2 k3 tol : Rat) (h2 : |k2 - k1| ≤ tol) (h3 : |k3 - k1| ≤ tol) :
+    |dotL e2 [k1, k2] - k1| ≤ 7 / 10 * tol ∧ |dotL e3 [k1, k2, k3] - k1| ≤ 7 / 2 * tol := by
+  have a2 := abs_le.mp h2
+  have a3 := abs_le.mp h3
+  simp only [dotL, sumL, e2, e3, List.zip, List.zipWith, List.map, List.foldl]
+  constructor <;> (rw [abs_le]; constructor <;> linarith [a2.1, a2.2, a3.1, a3.2])
 
 /-- the step-control constants are in the ranges the controller theorems need -/
 theorem control_constants :
